@@ -7,6 +7,7 @@ import MD.Model.IsoFit
 import MD.Model.Decompose
 import MD.Model.PD
 import MD.Model.Validate
+import MD.Model.Plot
 /-! JSON-lines driver: one request per line on stdin, one response per line on stdout. -/
 open Lean MD
 
@@ -320,6 +321,32 @@ def handle (j : Json) : Except String Json := do
           | .num n => some n.mantissa.toNat | _ => none))
       | _ => none
     pure (Json.mkObj [("pd", ratsToJson (partialDependence (predFamily a b c jj k) X jj grid w sub))])
+  | "murphy" =>
+    let f ← getStr j "f"
+    let α ← getRat j "level"
+    let etas ← getRats j "etas"
+    let y ← getRats j "y"
+    let cols ← getRatMatrix j "cols"
+    let w ← getOptRats j "w"
+    match murphyLines (Functional.ofString? f) α etas y cols w with
+    | .error e => pure (errJson e)
+    | .ok ls => pure (Json.mkObj [("lines", .arr (ls.map (fun l =>
+        Json.mkObj [("x", ratsToJson l.xs), ("y", ratsToJson l.ys)])).toArray)])
+  | "reliability" =>
+    let f ← getStr j "f"
+    let α ← getRat j "level"
+    let bias ← getBool j "bias"
+    let y ← getRats j "y"
+    let cols ← getRatMatrix j "cols"
+    let w ← getOptRats j "w"
+    match reliabilityLines (Functional.ofString? f) α bias y cols w with
+    | .error e => pure (errJson e)
+    | .ok ls =>
+      let diag := match diagonal cols with
+        | some l => Json.mkObj [("x", ratsToJson l.xs), ("y", ratsToJson l.ys)]
+        | none => Json.null
+      pure (Json.mkObj [("diag", diag), ("lines", .arr (ls.map (fun l =>
+        Json.mkObj [("x", ratsToJson l.xs), ("y", ratsToJson l.ys)])).toArray)])
   | "validate" =>
     let ep ← match (← getStr j "ep") with
       | "ident" => pure Val.EP.ident | "bias" => pure Val.EP.bias | "marginal" => pure Val.EP.marginal
